@@ -25,7 +25,7 @@ MTDefaults ==
     [] Scenario \in {"defaults_permissive", "empty_main_dir_edit", "dir_only_edit"} -> << [name |-> "n", body |-> RolesB({"dflt"}), dep |-> NoDep, removal |-> 0] >>
     \* (this registered default is marked deprecated for removal: a flag that changes warnings, not decisions)
     [] Scenario = "defaults_override_removed" -> << [name |-> "n", body |-> RolesB({"dflt"}), dep |-> NoDep, removal |-> 1] >>
-    [] Scenario \in {"deprecated", "deprecated_override_removed"} -> << [name |-> "n", body |-> RolesB({"dflt"}), dep |-> [name |-> "o", body |-> RolesB({"old"})], removal |-> 0] >>
+    [] Scenario \in {"deprecated", "deprecated_override_removed", "deprecated_alias_old_defaults"} -> << [name |-> "n", body |-> RolesB({"dflt"}), dep |-> [name |-> "o", body |-> RolesB({"old"})], removal |-> 0] >>
 
 File(c, t) == [exists |-> TRUE, mtime |-> t, content |-> c]
 Gone == [exists |-> FALSE, mtime |-> 0, content |-> NoRules]
@@ -48,6 +48,8 @@ FsOldAB ==
     [] Scenario = "defaults_override_removed" -> [f \in {"main", "d1/a"} |-> IF f = "main" THEN File(C2("default", AnyB, "n", RolesB({"a"})), 1) ELSE Gone]
     \* the override of the deprecated name is taken out of the main file (another rule of the file changes too)
     [] Scenario = "deprecated_override_removed" -> [f \in {"main", "d1/a"} |-> IF f = "main" THEN File(C2("o", RolesB({"a"}), "m", RolesB({"a"})), 1) ELSE Gone]
+    \* the file mentions the deprecated name only as an alias of the new one; enforce_new_defaults is off
+    [] Scenario = "deprecated_alias_old_defaults" -> [f \in {"main", "d1/a"} |-> IF f = "main" THEN File(C2("o", Alias("n"), "m", RolesB({"a"})), 1) ELSE Gone]
     \* no main policy file at all: every rule comes from the policy directory
     [] Scenario = "dir_only_edit" -> [f \in {"main", "d1/a"} |-> IF f = "main" THEN Gone ELSE File(C2("n", RolesB({"d1r"}), "m", RolesB({"a"})), 1)]
     \* policy in code: the main file exists and defines nothing, the operator's overrides live in the directory
@@ -65,13 +67,14 @@ FsNewAB ==
     [] Scenario = "defaults_override_removed" -> [FsOldAB EXCEPT !["main"] = File(C1("default", AnyB), 2)]
     [] Scenario = "deprecated_override_removed" -> [FsOldAB EXCEPT !["main"] = File(C1("m", RolesB({"b"})), 2)]
     [] Scenario = "dir_only_edit" -> [FsOldAB EXCEPT !["d1/a"] = File(C1("m", RolesB({"b"})), 2)]
+    [] Scenario = "deprecated_alias_old_defaults" -> [FsOldAB EXCEPT !["main"] = File(C2("o", Alias("n"), "m", RolesB({"b"})), 2)]
 TwoFiles == Scenario = "dir_two_files"
 FsOld == [f \in {"main", "d1/a", "d1/b"} |-> IF f = "d1/b" THEN (IF TwoFiles THEN File(C1("m", RolesB({"b"})), 1) ELSE Gone) ELSE FsOldAB[f]]
 FsNew == [f \in {"main", "d1/a", "d1/b"} |-> IF f = "d1/b" THEN (IF TwoFiles THEN File(C1("m", RolesB({"d2r"})), 2) ELSE Gone) ELSE FsNewAB[f]]
 DirSt == [d \in {"d1"} |-> [exists |-> TRUE, mtime |-> 1]]
 \* what is asked: the rule the edit concerns; a rule that lives only in the (unchanged part
 \* of the) main file; an undeclared name that resolves through the permissive default rule
-Query == CASE Scenario \in {"main_edit_dir_override", "dir_edit", "dir_edit_linked", "merge_mode_dir_edit", "dir_two_files", "deprecated_override_removed", "dir_only_edit"} -> {"n", "m"}
+Query == CASE Scenario \in {"main_edit_dir_override", "dir_edit", "dir_edit_linked", "merge_mode_dir_edit", "dir_two_files", "deprecated_override_removed", "dir_only_edit", "deprecated_alias_old_defaults"} -> {"n", "m"}
            [] Scenario = "defaults_permissive" -> {"n", "u", "m"}
            [] OTHER -> {"n"}
 
